@@ -38,7 +38,7 @@ MANIFEST = dict(
          "(nondeterministic here). Trusted: the mocks and the log order (one mutex-protected append).",
 )
 
-NEGS = ["tokenfirst", "releaseearly", "noleftcheck", "leftshort", "countdiscard"]
+NEGS = ["tokenfirst", "releaseearly", "noleftcheck", "leftshort", "leftshort_unknown", "countdiscard"]
 
 
 def run(tier, v):
@@ -46,26 +46,28 @@ def run(tier, v):
     cfgs = ["Pool_exh.cfg"] + (["Pool_exh_large.cfg"] if thorough else [])
     states = trans = 0
     table = {}
+    negs = pc.negatives_start(NEGS)
     for cfg in cfgs:
         r, t = pc.design(cfg, workers=8 if not thorough else 12, heap="6g" if not thorough else "16g")
         states += r.distinct
         trans += r.generated
         for k, x in t.items():
             table.setdefault(k, x)["outs"] |= x["outs"]
-    pc.negatives(NEGS)
+    pc.negatives_join(negs)
     b = vlib.harness_build()
     d = vlib.scratch()
-    rows_c, val_c, st_c, cstat = pc.cases(v, PID, b, d, table, 3 if thorough else 1, "c03_cases")
-    rows_t, val_t, st_t = pc.traces(v, PID, b, d, "c03", 5000 if thorough else 300, "c03_traces")
+    rows_c, rows_t, validated, tstates, cstat, corrupted = pc.both(
+        v, PID, b, d, table, 3 if thorough else 1, "c03", 5000 if thorough else 300)
     runs_t = sorted({r["run"] for r in rows_t})
     cov = {
         "states": states, "transitions": trans,
-        "traces_validated_against_impl": val_c + val_t,
-        "trace_events": len(rows_c) + len(rows_t), "trace_states": st_c + st_t,
+        "traces_validated_against_impl": validated,
+        "trace_events": len(rows_c) + len(rows_t), "trace_states": tstates,
         "random_configurations": len(runs_t),
         "runs_with_discards": len({r["run"] for r in rows_t if r["ev"] == "discard"}),
         "runs_out_of_ammo": len({r["run"] for r in rows_t if r["ev"] == "acq" and not r["ok"]}),
         "samples": [pc.sample_of(rows_t, x) for x in runs_t[:2]] + [pc.sample_of(rows_c, 0)],
+        "corrupted_traces_rejected": corrupted,
         "negative_controls": NEGS, "design_configs": cfgs,
         "exhaustive": False,
     }
